@@ -114,22 +114,22 @@ func fixedC06(tier string, seed uint64) []*sim.Plan {
 }
 
 var c06SrvAllowed = map[string][]string{
-	"cli_disconnect":      {"client namespace disconnect", "transport close", "transport error"},
-	"mgr_close":           {"transport close", "transport error", "client namespace disconnect"},
-	"srv_disc_false":      {"server namespace disconnect"},
-	"srv_disc_true":       {"server namespace disconnect", "forced server close", "forced close"},
-	"disc_sockets_false":  {"server namespace disconnect"},
-	"disc_sockets_true":   {"server namespace disconnect", "forced server close", "forced close"},
-	"server_close":        {"server shutting down", "forced close"},
-	"cut":                 {"transport close", "transport error", "ping timeout"},
-	"fin":                 {"transport close", "transport error", "ping timeout"},
-	"blackhole":           {"ping timeout", "transport close", "transport error"},
-	"none":                {},
+	"cli_disconnect":     {"client namespace disconnect", "transport close", "transport error"},
+	"mgr_close":          {"transport close", "transport error", "client namespace disconnect"},
+	"srv_disc_false":     {"server namespace disconnect"},
+	"srv_disc_true":      {"server namespace disconnect", "forced server close", "forced close"},
+	"disc_sockets_false": {"server namespace disconnect"},
+	"disc_sockets_true":  {"server namespace disconnect", "forced server close", "forced close"},
+	"server_close":       {"server shutting down", "forced close"},
+	"cut":                {"transport close", "transport error", "ping timeout"},
+	"fin":                {"transport close", "transport error", "ping timeout"},
+	"blackhole":          {"ping timeout", "transport close", "transport error"},
+	"none":               {},
 }
 
 var c06CliAllowed = map[string][]string{
-	"cli_disconnect":     {"io client disconnect", "forced close", "transport close", "transport error"},
-	"mgr_close":          {"forced close", "io client disconnect"},
+	"cli_disconnect": {"io client disconnect", "forced close", "transport close", "transport error"},
+	"mgr_close":      {"forced close", "io client disconnect"},
 	// (events in flight when the server disconnects the namespace reach it without a socket: "invalid
 	// state", the server closes the whole connection - the reference server does the same)
 	"srv_disc_false":     {"io server disconnect", "transport close", "transport error"},
